@@ -1,10 +1,11 @@
 #!/bin/sh
-# every seeded change must raise a VIOLATION for its property
+# every seeded change must raise a VIOLATION for its property.  usage: tools/regress_seeds.sh [repo-path] (default /repo)
+R="${1:-/repo}"
 cd /verif
 for d in /verif/seeded/*/; do
   [ -f $d/patch.diff ] || continue; id=$(basename $d); prop=$(echo $id | cut -c1-3)
-  git -C /repo apply $d/patch.diff 2>/dev/null || { echo "$id: patch does not apply"; continue; }
-  out=$(./check $prop 2>&1 | grep -v "^KNOWN")
-  git -C /repo checkout -- .
+  git -C $R apply $d/patch.diff 2>/dev/null || { echo "$id: patch does not apply"; continue; }
+  out=$(./check $prop --repo $R 2>&1 | grep -v "^KNOWN")
+  git -C $R checkout -- .
   if echo "$out" | grep -q "^VIOLATION property=$prop"; then echo "$id: caught  $(echo "$out" | grep '^VIOLATION' | head -1 | sed 's/.*replays.//' | cut -c1-110)"; else echo "$id: MISSED  $(echo "$out" | tail -1 | cut -c1-200)"; fi
 done
